@@ -383,7 +383,7 @@ func runC14(c *core.Ctx, o Options) {
 	c.Explanation = "TestRequest handler of package session, all acyclic SSA paths: rule Q1 — every path with Unmarshal ok and the logged-on test true contains exactly one send, of kind Heartbeat, " +
 		"no state change and no cancellation; Q2 — the operand of SetFieldTestReqID on the message that is sent is TestReqID() of the very builder the handler unmarshalled its input into; " +
 		"Q3 — the reply is sent synchronously in the dispatch goroutine (no go statement on the path, C04.F5 shows dispatch is sequential), hence before any later inbound message is handled; " +
-		"Q4 — byte identity of the ID rests on the String value codec being the identity conversion in both directions (checked on fix.String) and on the generated accessor pair of TestReqID sharing one index. " +
+		"Q4 — byte identity of the ID rests on the String value codec being the identity conversion in both directions (checked on fix.String) and on the decoder handing FromBytes exactly the bytes between the matched 'tag=' and the next delimiter (checked on scanKeyValue). " +
 		"Not decided: content-dependent mis-location of field 112 by substring search (C18 decides anchoring only)."
 	s := newSess(c)
 	if s == nil {
@@ -471,6 +471,7 @@ func runC14(c *core.Ctx, o Options) {
 	}
 	// Q4: codec identity of fix.String, and accessor pair of TestReqID in the reference package
 	checkStringIdentity(c, "Q4")
+	checkValueExtraction(c, "Q4")
 	c.Extra["paths"] = len(traces)
 	c.MinObl = 7
 }
